@@ -262,6 +262,9 @@ def build(rng, *, family="base", n_axes=1, layout="onaxis", n_glyphs=8, curves="
             for _ in bases:
                 if transforms == "none":
                     m2 = [1, 0, 0, 1]
+                elif transforms == "overflow":
+                    s = rng.choice([1.5, 1.9, 2.0, 2.5, -2.2, 1.25])
+                    m2 = rng.choice([[s, 0, 0, s], [s, 0, 0, 1], [1, 0, 0, s]])
                 elif transforms == "scale":
                     s = rng.choice([0.5, 0.75, 1.25, 1.5, -1])
                     m2 = rng.choice([[s, 0, 0, s], [s, 0, 0, 1], [-1, 0, 0, 1], [1, 0, 0, -1]])
